@@ -17,11 +17,19 @@ Param == File.param        \* sequence of records [kind, name, entry, pos, outco
 Ext == 1 .. MaxExt
 ListShapes == {<<>>, <<0>>} \cup { <<1, a>> : a \in Ext } \cup { <<2, a, b>> : a \in Ext, b \in Ext } \cup { <<3, 1, 1, 1>>, <<3, 2, 2, 2>> }
 
+\* beyond the small extents: arrays with more than 2^8 signals along one axis (identity / 8-bit comparisons of extents stop working there),
+\* with the option lists that match, miss by one, or are transposed
+BigArrays == {<<2, 257, 0>>, <<2, 300, 0>>, <<3, 257, 1>>, <<3, 1, 300>>}
+BigLists(a0, a1) == LET b == Max({a0, a1})  c == Max({a1, 1}) IN
+                    {<<>>, <<0>>, <<1, b>>, <<1, b - 1>>, <<1, 1>>, <<2, a0, c>>, <<2, c, a0>>}
+
 VARIABLES mode, ndim, n0, n1, axis, ls, pi, stage, agree
 vars == <<mode, ndim, n0, n1, axis, ls, pi, stage, agree>>
 
 Init == /\ stage = "settings" /\ agree = TRUE
         /\ \/ /\ mode = "shape" /\ ndim \in {2, 3} /\ n0 \in Ext /\ n1 \in (IF ndim = 3 THEN Ext ELSE {0}) /\ axis \in Axes /\ ls \in ListShapes /\ pi = 0
+           \/ /\ mode = "shape" /\ \E A \in BigArrays : ndim = A[1] /\ n0 = A[2] /\ n1 = A[3] /\ ls \in BigLists(A[2], A[3])
+              /\ axis \in Axes /\ pi = 0
            \/ /\ mode = "param" /\ pi \in 1 .. Len(Param) /\ ndim = 0 /\ n0 = 0 /\ n1 = 0 /\ axis = "0" /\ ls = <<>>
 
 LsKey(l) == IF l = <<>> THEN "N" ELSE IF l = <<0>> THEN "D" ELSE FoldLeft(LAMBDA acc, v : acc \o "x" \o ToString(v), ToString(l[1]) \o "d", Tail(l))
@@ -52,6 +60,6 @@ ASSUME UseImpl => \A i \in 1 .. Len(Param) : Param[i].pos \in Positions(Param[i]
 ASSUME UseImpl => \A i \in 1 .. Len(Param) : \A q \in Positions(Param[i].kind) :
                      \E j \in 1 .. Len(Param) : Param[j].kind = Param[i].kind /\ Param[j].name = Param[i].name /\ Param[j].entry = Param[i].entry /\ Param[j].pos = q
 \* documented valid combinations exist for every array shape (conversely ... is accepted)
-InvSomeValid == mode = "shape" /\ axis = (IF ndim = 2 THEN "None" ELSE "01") => \E l \in ListShapes : l # <<>> /\ l # <<0>> /\ AcceptAnalysis(ndim, n0, n1, axis, l)
+InvSomeValid == mode = "shape" /\ axis = (IF ndim = 2 THEN "None" ELSE "01") => \E l \in ListShapes \cup BigLists(n0, n1) : l # <<>> /\ l # <<0>> /\ AcceptAnalysis(ndim, n0, n1, axis, l)
 ImplAgrees == agree
 =============================================================================
